@@ -434,6 +434,19 @@ def backend_part(run, rng, thorough):
             ads = Adsorbate(f"zz pair {uname}", backend_name=fluid, **up)
             for i, (m, tcls, calc) in enumerate((a, b)):
                 add(ads, f"pair:{uname}", "valid", fluid, m, tt.get(tcls), tcls, calc, "none", seq=f"{i + 1} of {a}->{b}")
+    # --- the hidden CoolProp state at ONE temperature: every ordered pair of the 14 methods (and seeded triples) on one
+    #     object, all calculated at the same T (liquid after vapour, vapour after liquid, scalar in between ...); every call is
+    #     judged like a first call against the independent PropsSI value
+    same_fluids = pick[:4] if thorough else pick[:1]
+    for fluid in same_fluids:
+        tt = temps(fluid)
+        seqs = [(a, b) for a in methods for b in methods]
+        seqs += [tuple(rng.choice(methods) for _ in range(3)) for _ in range(600 if thorough else 80)]
+        for seq in seqs:
+            ads = Adsorbate("zz same T", backend_name=fluid)
+            for i, m in enumerate(seq):
+                add(ads, "sameT:none", "valid", fluid, m, tt["in"] if m in alpha["tdep"] else None, "in" if m in alpha["tdep"] else "na",
+                    True, "none", seq=f"{i + 1} of {'->'.join(seq)} at one T")
     # --- every shipped adsorbate
     for a in pygaps.ADSORBATE_LIST:
         fluid = a.properties.get("backend_name")
@@ -455,7 +468,7 @@ def backend_part(run, rng, thorough):
         if not a["ok"]:
             cls = {"site": "Adsorbate." + r["m"], "link": r["link"], "backend_can": r["can"], "user_property": r["user_has"],
                    "calculate": r["calc"], "unit_given": r["unit"] != "none", "observed": a["observed"],
-                   "expected": "+".join(a["allowed"]), "after_other_call": bool(mt["seq"].startswith("2"))}
+                   "expected": "+".join(a["allowed"]), "after_other_call": not mt["seq"].startswith("1") and bool(mt["seq"])}
             agg.add(cls, mt["kind"], {"fixture": mt["kind"].split(":")[0]}, {"record": r, "fixture": mt, "answer": a})
     agg.flush()
     run.add("traces_validated_against_impl", len(recs))
@@ -524,7 +537,7 @@ def main(tier, seed):
     run.set(states=r1["distinct"] + r2["distinct"], transitions=r1["states_generated"] + r2["states_generated"],
             tlc_runs={"RegistryMC": [r1["distinct"], r1["states_generated"], r1["depth"]], "BackendMC": [r2["distinct"], r2["states_generated"], r2["depth"]]},
             tlc_invariants=["InvShippedStable", "InvShippedFind", "InvFindSound", "InvNoDupName", "StepAllowed",
-                            "InvAllowed", "InvNoSilentBackend", "InvUnitHonoured", "InvHistoryFree"])
+                            "InvAllowed", "InvNoSilentBackend", "InvUnitHonoured", "InvHistoryFree", "InvBranch"])
 
     SHIPPED_REF[:] = list(pygaps.ADSORBATE_LIST)
     workdir = tlc.scratch("c20-")
